@@ -233,6 +233,12 @@ Theorem C16_deadline_wakes_handshake_refuted :
 Proof. exact deadline_wakes_handshake_refuted. Qed.
 Print Assumptions C16_deadline_wakes_handshake_refuted.
 
+Example C16_example_close_during_negotiation :
+  let g := run ops_close_during_negotiation (cfg0 true false) in
+  cn_close (cn g) = 0 /\ sock_closes (cn g) = 1 /\ quiet g = true /\
+  hs g = HRet HClosed /\ hres_class (est (cn g)) HClosed = KClosed.
+Proof. exact close_during_negotiation. Qed.
+
 Example C16_example_close_before_install :
   let g := run ops_close_before_install (cfg0 false false) in
   can_rd (cn g) = true /\ hs g = HRet (HErr RSockClosed) /\ quiet g = true /\
